@@ -51,10 +51,12 @@ def singular_exprs(g: gen.Gen, r):
         return b / a + b * b + gen.FN["sqrt"](a) * x[0]
     if k == 11:
         return (a ** r.choice([0.5, -1, 1.5])) * (b + 2) + 5e17 * b        # a regular entry beyond +-1e16 next to singular ones
+    wgt = r.choice([1, 1, 3, -1, 0.5, -2.5, 1e300, 7])           # a constant weight on a vectorised sum, written on either side
+    scale = (lambda f: f) if wgt == 1 else r.choice([lambda f: wgt * f, lambda f: f * wgt, lambda f: -(f * abs(wgt))])
     if k == 0:
-        return gen.FN[r.choice(ops)](x).sum()
+        return scale(gen.FN[r.choice(ops)](x).sum())
     if k == 1:
-        return (x ** r.choice([0.5, -1, -2, 1.5, 2, 3, 1, -0.5])).sum()
+        return scale((x ** r.choice([0.5, -1, -2, 1.5, 2, 3, 1, -0.5])).sum())
     if k == 2:
         return vnorm(x) + a
     if k == 3:
@@ -243,7 +245,7 @@ def run(rep: vk.Report):
                 continue
             # regular entries unchanged: inside the enclosure of the model derivative (verdict 2 = singular entry, accepted)
             for j, nm in enumerate(names):
-                if np.isfinite(G[j]):
+                if np.isfinite(G[j]) and np.isfinite(J[j]):
                     nums.append(f"({te}, (Some {ser.s(nm)}, None), {common.pts_term(pt)}, [], [{ser.q(float(G[j]))}; {ser.q(float(J[j]))}])")
                     nmeta.append({"what": f"grad[{nm}]", "expr": repr(e)[:300], "point": pt, "value": float(G[j]), "path": gf.__name__})
             if len(names) <= 3:
